@@ -3,6 +3,7 @@
 import json, sys
 pid = sys.argv[1]
 round2 = len(sys.argv) > 2 and sys.argv[2] == "--round2"
+round3 = len(sys.argv) > 2 and sys.argv[2] == "--round3"
 wt = "/tmp/brk-%s" % pid
 for l in open('/verif/properties.jsonl'):
     p = json.loads(l)
@@ -13,6 +14,8 @@ else:
 ROUND2 = ""
 if round2:
     ROUND2 = ("This is a SECOND round: an earlier round already produced the obvious breaks (direct edits of the central comparison, validation or loop of the main function the property is about). Look further from the centre: helper functions, event plumbing and re-sync requests, caches / short-circuit optimisations ('nothing changed, skip'), error and retry paths, cleanup on delete / rename / reconfiguration, rarely used options and option combinations, state kept across reconnects or restarts, aliasing of shared slices / maps, value-vs-pointer receivers, lock scope. Prefer changes whose effect shows only after a particular sequence of events.\n\n")
+if round3:
+    ROUND2 = ("This is a THIRD round. Earlier rounds already produced: direct edits of the central comparison / validation / loop; 'nothing changed, skip' caches and short-circuits; a rejected call leaving partial state behind; state that sticks across reconnects; narrowed or reordered locks and value receivers; aliasing of shared slices and maps (including a consumer writing into the shared configuration); map-iteration order leaking into results; a lost 're-sync everything' request; annotation precedence slips; one-sided comparisons of sorted lists. Do NOT repeat those. Look for other kinds: the interaction of two components that each look right alone (controller and allocator, speaker and session manager / announcer, reconciler and handler, parser and consumer); boundary values (empty sets, single element, maximum sizes, first/last address of a range, prefix lengths 0/31/32/127/128, ASN and port limits); rarely used API fields and their combinations; behaviour under injected failures (API write conflicts, refused connections, failing reloads) and what is kept or lost when they stop; timers, back-off and ordering of asynchronous notifications; deletion and re-creation of an object under the same name; a status / metrics / reporting path that feeds back into a decision. Each change must still pass the whole existing suite.\n\n")
 print(f"""You are given one semantic property of MetalLB (bare-metal Kubernetes LoadBalancer: controller with an IP-pool allocator, speaker with native BGP / FRR config generation / ARP-NDP layer-2 announcer; Go) and your own scratch git worktree of its repository at {wt}. Work ONLY inside {wt} (never touch /repo, never read or touch /verif).
 
 PROPERTY {p['id']}: {p['title']}
